@@ -173,6 +173,14 @@ def norm(n):
                 return r
             except (KeyError, IndexError, TypeError):
                 return n
+    if k == 'Match' and os.environ.get('LDAP3_NO_CANON') is None:
+        r = canon_two_arm_match(n)
+        if r is not None:
+            return r
+    if k == 'Loop' and not n.get('src', '').startswith('While') and os.environ.get('LDAP3_NO_CANON') is None:
+        r = canon_loop_match(n)
+        if r is not None:
+            return canon_while_next(r)
     if k == 'Loop' and n.get('src', '').startswith('While'):
         # loop { if cond { body } else { break } }
         try:
@@ -183,10 +191,110 @@ def norm(n):
                      'cond': iff['cond'], 'body': iff['then']}
                 if 'label' in n:
                     r['label'] = n['label']
-                return r
+                return canon_while_next(r) if os.environ.get('LDAP3_NO_CANON') is None else r
         except (KeyError, IndexError, TypeError):
             pass
     return n
+
+
+# ---------------------------------------------------------------------------------------
+# Canonical forms of equivalent control constructs.  A rule must give the same verdict for
+#   match e { P => A, <catch-all> => B }      and   if let P = e { A } else { B }
+#   loop { match it.next() { None => break, Some(x) => body } }   and   while let Some(x) = it.next() { body }
+#   while let Some(x) = it.next() { body }    and   for x in it { body }      (the remaining items of an iterator)
+# so the first form of each pair is rewritten into the second when the facts are loaded.
+
+def _catch_all(p):
+    """Pattern that binds nothing and is the complement of its sibling arm: `_`, a unit variant (`None`), or a variant
+    whose sub-patterns are all wildcards (`Err(_)`)."""
+    k = p.get('k')
+    if k == 'Wild':
+        return True
+    if k == 'PExpr' and p['e'].get('k') == 'PPath':
+        return True
+    if k == 'PTupleStruct':
+        return all(x.get('k') == 'Wild' for x in p['pats'])
+    if k == 'PStruct':
+        return all(f['pat'].get('k') == 'Wild' for f in p['fields'])
+    return False
+
+def _pat_rank(p):
+    v = (p.get('ctor_of') or p.get('def') or '') if p.get('k') in ('PTupleStruct', 'PStruct') else ''
+    if p.get('k') == 'PExpr':
+        v = p['e'].get('ctor_of') or p['e'].get('def') or ''
+    last = v.rsplit('::', 1)[-1]
+    return 0 if last in ('Some', 'Ok') else (2 if last in ('None', 'Err') else 1)
+
+def canon_two_arm_match(n):
+    if n.get('src', 'Normal') != 'Normal' or len(n['arms']) != 2 or any(a.get('guard') is not None for a in n['arms']):
+        return None
+    a, b = n['arms']
+    if a['pat'].get('k') == 'Wild':
+        return None                      # `_ => A, unreachable => B`
+    if _catch_all(b['pat']) and not (_catch_all(a['pat']) and _pat_rank(a['pat']) > _pat_rank(b['pat'])):
+        then, els = a, b
+    elif _catch_all(a['pat']) and b['pat'].get('k') != 'Wild':
+        then, els = b, a
+    else:
+        return None
+    # both arms must test the same scrutinee exhaustively: the else arm is the complement only for two-variant enums or `_`
+    if els['pat'].get('k') != 'Wild':
+        def enum_of(p):
+            d = p.get('ctor_of') or p.get('def') or ''
+            if p.get('k') == 'PExpr':
+                d = p['e'].get('ctor_of') or p['e'].get('def') or ''
+            return d.rsplit('::', 1)[0], d.rsplit('::', 1)[-1]
+        e1, v1 = enum_of(then['pat'])
+        e2, v2 = enum_of(els['pat'])
+        if not ((v1, v2) in (('Some', 'None'), ('None', 'Some'), ('Ok', 'Err'), ('Err', 'Ok'))):
+            return None
+    cond = {'k': 'LetExpr', 'id': (n.get('id') or '') + 'c', 'sp': n.get('sp'), 'ty': 'bool', 'pat': then['pat'], 'init': n['scrut']}
+    return {'k': 'If', 'id': n.get('id'), 'sp': n.get('sp'), 'ty': n.get('ty'), 'cond': cond, 'then': then['body'], 'els': els['body'],
+            'from_match': True}
+
+def _is_plain_break(e, loop_id):
+    if e is None:
+        return False
+    if e.get('k') == 'Block' and not e['stmts'] and e.get('expr') is not None:
+        e = e['expr']
+    if e.get('k') == 'Block' and len(e['stmts']) == 1 and e.get('expr') is None and e['stmts'][0]['k'] in ('Expr', 'Semi'):
+        e = e['stmts'][0]['e']
+    return e.get('k') == 'Break' and e.get('e') is None and e.get('target') in (None, loop_id)
+
+def canon_loop_match(n):
+    """loop { if let P = e { body } else { break } }  ->  while let P = e { body }"""
+    b = n.get('body')
+    if not b or b.get('k') != 'Block':
+        return None
+    if not b['stmts'] and b.get('expr') is not None:
+        iff = b['expr']
+    elif len(b['stmts']) == 1 and b.get('expr') is None and b['stmts'][0]['k'] in ('Expr', 'Semi'):
+        iff = b['stmts'][0]['e']
+    else:
+        return None
+    if iff.get('k') != 'If' or iff['cond'].get('k') != 'LetExpr' or not _is_plain_break(iff.get('els'), n.get('id')):
+        return None
+    r = {'k': 'While', 'id': n.get('id'), 'sp': n.get('sp'), 'ty': n.get('ty'), 'cond': iff['cond'], 'body': iff['then']}
+    if 'label' in n:
+        r['label'] = n['label']
+    return r
+
+def canon_while_next(w):
+    """while let Some(p) = it.next() { body }  ->  for p in it { body }   (marked by_next: the iterator is borrowed, not consumed)"""
+    c = w.get('cond')
+    if not c or c.get('k') != 'LetExpr':
+        return w
+    p = c['pat']
+    if p.get('k') != 'PTupleStruct' or not (p.get('ctor_of') or p.get('def') or '').endswith('::Some') or len(p['pats']) != 1:
+        return w
+    e = c['init']
+    if e.get('k') != 'MethodCall' or e.get('name') != 'next' or e['args'] or not (
+            (e.get('callee') or '').endswith('Iterator::next') or (e.get('inst') or '').endswith('Iterator>::next')):
+        return w
+    r = {'k': 'For', 'id': w.get('id'), 'sp': w.get('sp'), 'ty': w.get('ty'), 'pat': p['pats'][0], 'iter': e['recv'], 'body': w['body'], 'by_next': True}
+    if 'label' in w:
+        r['label'] = w['label']
+    return r
 
 
 # ---------------------------------------------------------------------------------------
